@@ -51,7 +51,14 @@ REAL_STUB = {
 SCHEMA_URL = "file:///sim/schema/s.xml"
 # 'loader': one ConfigLoader object serves the baseline and every injected
 # load of the scenario (hundreds of loads, nearly all of them failing)
-MODES = ["url", "loader", "file+url", "file-nourl"]
+# 'namedfile+url': a file object that has a .name of its own AND an explicit
+# url -- the explicit url is the resource's URL
+MODES = ["url", "loader", "file+url", "file-nourl", "namedfile+url"]
+
+
+class NamedStringIO(io.StringIO):
+    name = "/sim/local-cache/copy-of-the-resource.conf"
+
 
 
 def generate(rng, tier, index):
@@ -92,6 +99,8 @@ def _load(schema, world, res, top, mode, eol=None, loader=None):
     text = world.store[top]
     if mode == "file+url":
         return ZConfig.loadConfigFile(schema, io.StringIO(text), top)
+    if mode == "namedfile+url":
+        return ZConfig.loadConfigFile(schema, NamedStringIO(text), top)
     return ZConfig.loadConfigFile(schema, io.StringIO(text))
 
 
